@@ -25,7 +25,9 @@ static void c03Body(Env& env, const std::string& stage, int n, const dom::Alphab
     c.count(empty ? "lang_empty" : "lang_nonempty");
     if (c.wantSample() && !empty && uselessPresent && A.rules.size() >= 3) c.sample(D->str(A));
     std::vector<std::string> feats; if (reach.size() == own.size() && reach != own) feats.push_back("reachable_count_equals_owner_count");
-    ExplicitTreeAut a = dom::build(A);
+    for (int ord = 0; ord < 2; ord++) {   // both construction histories: rules then finals ascending / finals first, everything descending
+    if (ord && A.rules.size() + A.finals.size() < 2) break;
+    ExplicitTreeAut a = dom::build(A, ord == 1);
     try {
       // RemoveUnreachableStates
       { ExplicitTreeAut r = a.RemoveUnreachableStates(); ref::TA R = dom::readBack(r);
@@ -48,6 +50,7 @@ static void c03Body(Env& env, const std::string& stage, int n, const dom::Alphab
       { bool e = a.IsLangEmpty(); if (e != empty) c.viol("IsLangEmpty", e ? "says_empty_but_is_not" : "says_nonempty_but_is_empty", feats, det(*D, A, ""), w);
         if (dom::readBack(a) != A) c.viol("IsLangEmpty", "operand_changed", feats, det(*D, A, ""), w); }
     } catch (std::exception& e) { c.viol("trimming", "exception", feats, det(*D, A, e.what()), w); }
+    }
   });
 }
 
@@ -117,7 +120,8 @@ static void c15Body(Env& env, const std::string& stage, int n, const dom::Alphab
     if (leafOnly) c.count("class_leaf_only_language"); if (deepOnly) c.count("class_no_leaf_accepted");
     for (auto f : A.finals) if (!P.count(f)) { c.count("class_unproductive_final"); break; }
     if (c.wantSample() && deepOnly && A.rules.size() >= 3) c.sample(D->str(A));
-    ExplicitTreeAut a = dom::build(A);
+    for (int ord = 0; ord < 2; ord++) {
+    ExplicitTreeAut a = dom::build(A, ord == 1);
     try {
       ExplicitTreeAut wt = a.GetCandidateTree(); ref::TA W = dom::readBack(wt);
       std::string d = det(*D, A, "witness: " + D->str(W));
@@ -125,6 +129,7 @@ static void c15Body(Env& env, const std::string& stage, int n, const dom::Alphab
       if (!empty && ref::emptyLang(W)) c.viol("GetCandidateTree", "witness_empty_for_nonempty_language", {}, d, w);
       if (dom::readBack(a) != A) c.viol("GetCandidateTree", "operand_changed", {}, d, w);
     } catch (std::exception& e) { c.viol("GetCandidateTree", "exception", {}, det(*D, A, e.what()), w); }
+    }
   });
 }
 
